@@ -312,6 +312,27 @@ type c26Stop struct {
 	Audio bool   `json:"audio"`
 	How   string `json:"how"` // "close" (window asks to close), "cancel-poll" (cancel from the window poll hook), "cancel-serial" (cancel from the serial writer), "cancel-async"
 	At    int    `json:"at"`  // frame number (1-based) in which the request is issued
+	// LCDOff > 0: the program switches the LCD off after that many frames and goes on reporting one byte per
+	// (slightly more than a) frame from a delay loop. Only with requests issued from the serial writer or
+	// asynchronously ("close-serial": the window is marked for closing when byte number At arrives, as a user
+	// closing the window at that moment would).
+	LCDOff int `json:"lcd_off,omitempty"`
+}
+
+// c26BeaconOff: the frame beacon for lcdOff frames, then LCDC = 0 and a beacon paced by a delay loop of 17 570 +
+// cycles (never more than one byte per frame).
+func c26BeaconOff(lcdOff int) []byte {
+	p := []byte{0x0e, uint8(lcdOff)} // LD C,n
+	p = append(p,
+		0xf0, 0x44, 0xfe, 0x90, 0x20, 0xfa, // wait: LDH A,(44); CP 144; JR NZ,wait
+		0x78, 0x04, 0xe0, 0x01, // LD A,B; INC B; LDH (01),A
+		0xf0, 0x44, 0xfe, 0x90, 0x28, 0xfa, // wait2: LDH A,(44); CP 144; JR Z,wait2
+		0x0d,       // DEC C
+		0x20, 0xed, // JR NZ,wait
+		0xaf, 0xe0, 0x40, // XOR A; LDH (40),A   (line 145: inside V-blank)
+		// off: LD DE,2510; d: DEC DE; LD A,D; OR E; JR NZ,d; LD A,B; INC B; LDH (01),A; JR off
+		0x11, 0xce, 0x09, 0x1b, 0x7a, 0xb3, 0x20, 0xfb, 0x78, 0x04, 0xe0, 0x01, 0x18, 0xf2)
+	return p
 }
 
 // one serial byte per frame, when line 144 begins
@@ -341,14 +362,30 @@ func (w *c26Writer) Write(p []byte) (int, error) {
 
 func c26RunStop(c c26Stop) (sig string, err error) {
 	defer vf.Recover(&sig, &err)
-	rom := c11Build(c11Spec{Len: -1, Program: c26FrameBeacon})
+	prog := c26FrameBeacon
+	if c.LCDOff != 0 {
+		if c.LCDOff < 1 || c.LCDOff > 200 || (c.How != "close-serial" && c.How != "cancel-serial" && c.How != "cancel-async") {
+			return "invalid-case", fmt.Errorf("lcd_off needs 1..200 and a request that does not depend on the window being polled")
+		}
+		prog = c26BeaconOff(c.LCDOff)
+	}
+	if c.How == "close-serial" && !c.Video {
+		return "invalid-case", fmt.Errorf("no window without video output")
+	}
+	rom := c11Build(c11Spec{Len: -1, Program: prog})
 	ctx, cancel := context.WithCancel(context.Background())
 	defer cancel()
 	const runaway = 4 // frames after the request at which the harness unwinds Run itself
 	requested := int32(0)
 	reqFrame := int32(0)
 	w := &c26Writer{}
+	var g *sysGB
 	w.onByte = func(n int) {
+		if c.How == "close-serial" && n == c.At {
+			atomic.StoreInt32(&requested, 1)
+			atomic.StoreInt32(&reqFrame, int32(n))
+			g.Window.Close = true // same goroutine as the frame loop that asks ShouldClose
+		}
 		if c.How == "cancel-serial" && n == c.At {
 			atomic.StoreInt32(&requested, 1)
 			atomic.StoreInt32(&reqFrame, int32(n))
@@ -358,7 +395,8 @@ func c26RunStop(c c26Stop) (sig string, err error) {
 			panic(c26Unwind{})
 		}
 	}
-	g, gerr := sysNewGB(rom, c.Video, c.Audio, w)
+	var gerr error
+	g, gerr = sysNewGB(rom, c.Video, c.Audio, w)
 	if gerr != nil {
 		return "construction", gerr
 	}
@@ -435,7 +473,7 @@ func c26RunStop(c c26Stop) (sig string, err error) {
 	<-finished
 	atomic.StoreInt32(&stopAudio, 1)
 	frames := int(atomic.LoadInt32(&w.n))
-	if c.Video && c.How != "cancel-serial" && c.How != "cancel-async" {
+	if c.Video && c.How != "cancel-serial" && c.How != "cancel-async" && c.How != "close-serial" {
 		frames = polls
 	}
 	defer func() {
@@ -605,8 +643,8 @@ func TestC26(t *testing.T) {
 		var n int64
 		idx := 0
 		for cfg := 0; cfg < 4; cfg++ {
-			for _, how := range []string{"close", "cancel-poll", "cancel-serial", "cancel-async"} {
-				if cfg&1 == 0 && (how == "close" || how == "cancel-poll") {
+			for _, how := range []string{"close", "cancel-poll", "cancel-serial", "cancel-async", "close-serial"} {
+				if cfg&1 == 0 && (how == "close" || how == "cancel-poll" || how == "close-serial") {
 					continue // no window without video output
 				}
 				for _, at := range []int{1, 2, 3, 5, 8, 13, 21, 34} {
@@ -615,6 +653,9 @@ func TestC26(t *testing.T) {
 						continue
 					}
 					cas := c26Stop{Video: cfg&1 != 0, Audio: cfg&2 != 0, How: how, At: at}
+					if how == "close-serial" || (how != "close" && how != "cancel-poll" && at%2 == 1) {
+						cas.LCDOff = []int{0, 1, 2, 4, 40}[idx%5] // before, at or after the request; never
+					}
 					sig, err := c26RunStop(cas)
 					n++
 					c.Sample("stop-"+how, cas)
@@ -633,9 +674,13 @@ func TestC26(t *testing.T) {
 		cas := c26Stop{Video: rapid.Bool().Draw(rt, "video"), Audio: rapid.Bool().Draw(rt, "audio"), At: rapid.IntRange(1, 60).Draw(rt, "at")}
 		hows := []string{"cancel-serial", "cancel-async"}
 		if cas.Video {
-			hows = append(hows, "close", "cancel-poll")
+			hows = append(hows, "close", "cancel-poll", "close-serial", "close-serial")
 		}
 		cas.How = rapid.SampledFrom(hows).Draw(rt, "how")
+		if cas.How != "close" && cas.How != "cancel-poll" && rapid.Bool().Draw(rt, "lcd-goes-off") {
+			cas.LCDOff = rapid.IntRange(1, 70).Draw(rt, "lcd-off")
+			c.Class("stop-with-lcd-switched-off", 1)
+		}
 		c.Case("stop-"+cas.How, vf.Hash(cas), true, func() interface{} { return cas })
 		sig, err := c26RunStop(cas)
 		if err != nil {
